@@ -22,7 +22,8 @@ vars == <<tab, opts, r, k, gx, occ, placed, phase>>
 \* cs: colspan, rs: rowspan (0 = to the end of the row group), words: 0..2 words of 4 em, w: 0 = auto, n > 0 = n px, n < 0 = -n %
 CellW == IF Sized THEN {0, 20, 48, -30} ELSE {0}
 \* rh: specified height of the ROW, carried by its first cell (0 auto, n px)
-Cell == [cs : 1..MaxSpan, rs : 0..MaxSpan, words : (IF Sized THEN 0..2 ELSE {1}), w : CellW, rh : (IF Sized THEN {0, 5, 30} ELSE {0})]
+\* (cs = 0 stands for an invalid colspan attribute - "0", "-2" or not a number -, which counts as 1: HTML 4.9.11)
+Cell == [cs : (IF Sized \/ MaxRows <= 2 THEN 0..MaxSpan ELSE 1..MaxSpan), rs : 0..MaxSpan, words : (IF Sized THEN 0..2 ELSE {1}), w : CellW, rh : (IF Sized THEN {0, 5, 30} ELSE {0})]
 \* tw: table width (0 auto, n px), fixed: table-layout fixed, bs: border-spacing px, collapse, cap: caption (0 none, 1 top, 2 bottom)
 \* rtl: direction: rtl on the table: the columns run from right to left
 Opts == IF Sized THEN [tw : {0, 60, 200}, fixed : BOOLEAN, bs : {0, 2}, collapse : BOOLEAN, cap : 0..2, rtl : BOOLEAN]
@@ -45,7 +46,7 @@ EndBuild == /\ phase = "build" /\ (IF tab = <<>> THEN FALSE ELSE tab[Len(tab)] #
 RECURSIVE FirstFree(_, _)
 FirstFree(y, g) == IF <<y, g>> \in occ THEN FirstFree(y, g + 1) ELSE g
 PlaceCell == /\ phase = "place" /\ r <= NRows /\ k <= Len(tab[r])
-             /\ LET c == tab[r][k]
+             /\ LET c == [tab[r][k] EXCEPT !.cs = IF @ = 0 THEN 1 ELSE @]
                     x == FirstFree(r, gx)
                     left == NRows - r + 1
                     rs == IF c.rs = 0 THEN left ELSE IF c.rs > left THEN left ELSE c.rs
